@@ -243,3 +243,67 @@ def meta_fine_stream(props, name="meta-fine-grained-exploration"):
                     if len(res.violations) < 50 else None)
         return res
     return stream
+
+
+def init_race_stream(tier):
+    """C10 under threads: the real Data server under the scheduler with the init request readable early or late, a SECOND
+    init request somewhere later in the stream, and random schedules of the starting thread (which keeps running after it
+    has started the reader), the reader, the writer and the pool.  Oracles only (the Data model ignores a late init request)."""
+    R0 = C.rng("conc-init-race")
+    res = Result("data-cosim-init-race")
+    n = {"quick": 400, "search": 1500, "thorough": 8000}[tier]
+    for i in range(n):
+        seed = R0.getrandbits(48)
+        R = random.Random(seed)
+        scn = CD.gen_scenario(R, "small", max_items=1)
+        scn["requests"] = scn["requests"][:2]
+        first = "1|DPI|S|ARI.version|S|1.9.1\r\n"
+        second = "i2|DPI|S|ARI.version|S|1.9.1%s\r\n" % R.choice(["", "|S|keepalive_hint.millis|S|2500"])
+        reqs = ["%s|%s|S|%s\r\n" % (r["id"], r["method"], r["item"]) for r in scn["requests"]]
+        k = R.randrange(0, len(reqs) + 1)
+        scn["chunks"] = [first] + reqs[:k] + [second] + reqs[k:]
+        scn["early"] = R.random() < 0.3
+        scn["probe"] = False
+        scn["ext"] = []
+        SR = random.Random(seed ^ 0x1F123BB5)
+        choices = []
+        # bias: once the reader exists, the starting thread is often held back (it is the thread that matters here)
+        hold = R.random() < 0.6
+
+        def choose(names, ops, SR=SR, choices=choices, hold=hold):
+            cand = [x for x in names if x != "M"] if (hold and "R" in names and len(names) > 1 and SR.random() < 0.85) else names
+            c = SR.choice(cand or names)
+            choices.append(c)
+            return c
+        run = CD.run_real(scn, choose)
+        res.evaluations += 1
+        res.traces += 1
+        ev = [(t, ch["tid"]) + tuple(e) for t, ch in enumerate(run.chunks) for e in ch["events"]]
+        inits = [e for e in ev if e[2] == "adapter-sync" and e[3] == "initialize"]
+        lsns = [e for e in ev if e[2] == "adapter-sync" and e[3] == "set_listener"]
+        wire = "".join(b.decode("utf-8") for _, b in run.sent).split("\r\n")
+        inp = {"seed": seed, "scenario": {"chunks": scn["chunks"], "pool": scn["pool"], "early": scn["early"]}, "schedule": choices[:300]}
+        res.nontrivial.add((tuple(scn["chunks"]), tuple(choices[:60])))
+        res.distribution["status_" + run.status] += 1
+        m_last = max((t for t, ch in enumerate(run.chunks) if ch["tid"] == "M"), default=-1)
+        r_init = min((e[0] for e in inits), default=None)
+        if r_init is not None and r_init < m_last:
+            res.distribution["initialize_before_start_returned"] += 1
+        if len(inits) > 1 or len(lsns) > 1:
+            res.violation("initialize-twice", "initialize invoked %d times, set_listener %d times (a second init request was accepted)" % (len(inits), len(lsns)), inp)
+        if any(l.startswith("i2|") for l in wire):
+            res.violation("second-init-answered", "the second init request got a reply: %r" % [l for l in wire if l.startswith("i2|")], inp)
+        calls = [e for e in ev if e[2] == "ab"]
+        if calls and (not inits or calls[0][0] < inits[0][0]):
+            res.violation("adapter-call-before-initialize", "adapter.%s invoked before initialize returned" % (calls[0][3],), inp)
+        if run.status == "quiescent":
+            # requests after the (first) init request are served: the gate does not close again
+            for r in scn["requests"]:
+                if not any(l.startswith(r["id"] + "|") for l in wire):
+                    res.violation("request-after-init-rejected", "request %s (%s) sent after the init request was never answered" % (r["id"], r["method"]), inp)
+                    break
+        if run.errors:
+            res.violation("thread-died", "an exception escaped a library thread: %s" % (run.errors,), inp)
+        if i < 2:
+            res.sample({"scenario": inp["scenario"], "wire": wire[:8]})
+    return res
